@@ -740,6 +740,7 @@ func ruleDevOrder(c *Ctx) []Obligation {
 	}
 	// appends whose result can be what is returned on the path through the AST loop
 	okAppend, badAppend := false, ""
+	nested := false
 	for _, b := range orderFn.Blocks {
 		r, isR := b.Instrs[len(b.Instrs)-1].(*ssa.Return)
 		if !isR || len(r.Results) != 1 || !header.Dominates(b) && !blockReaches(header, b, nil) {
@@ -756,6 +757,11 @@ func ruleDevOrder(c *Ctx) []Obligation {
 			if bi, isB := call.Call.Value.(*ssa.Builtin); isB && bi.Name() == "append" {
 				if inAST[call.Block()] {
 					okAppend = true
+					// one entry per statement: the append is an iteration of the walk itself, not of a loop nested in it
+					if lh := loopHeaderOf(call.Block()); lh != nil && lh != header {
+						badAppend = c.InstrPos(call)
+						nested = true
+					}
 				} else if blockReaches(header, call.Block(), nil) && !inAST[call.Block()] {
 					// an append after the AST loop (grouped by kind) on the path with an AST node
 					if loopHeaderOf(call.Block()) != nil {
@@ -770,6 +776,8 @@ func ruleDevOrder(c *Ctx) []Obligation {
 	case okAppend && badAppend == "":
 		obs := []Obligation{ok(R, con, c.InstrPos(header.Instrs[0]), "every entry of the returned list is appended inside the walk over Deviation.Deviate")}
 		return append(obs, c.devOrderCursor(R, orderFn, inAST)...)
+	case badAppend != "" && nested:
+		return []Obligation{bad(R, con, badAppend, "entries are appended in a loop nested inside the walk over the AST's deviate statements: a whole group of statements of one kind is emitted where its first member stands, so a kind that recurs after another kind (add, delete, add) is applied out of its written order")}
 	case badAppend != "":
 		return []Obligation{bad(R, con, badAppend, "entries are appended to the returned list in a loop other than the walk over the AST's deviate statements: statements of one kind are pulled together, so interleaved add/delete/replace statements are applied out of their written order")}
 	default:
